@@ -106,6 +106,12 @@ func contexts() []wrap {
 			u.Unescaped = true
 			return []*gen.Node{{Kind: gen.KElem, Tag: "p", Inline: u}, n, p("after")}
 		}},
+		{"after-unescaped-render-command", func(n *gen.Node) []*gen.Node {
+			return []*gen.Node{{Kind: gen.KRender, Callee: "L0" + gen.Args, Unescaped: true}, n, p("after")}
+		}},
+		{"after-unescaped-children-command", func(n *gen.Node) []*gen.Node {
+			return []*gen.Node{{Kind: gen.KChildren, Unescaped: true}, n, p("after")}
+		}},
 		{"in-nuked-element", func(n *gen.Node) []*gen.Node {
 			return []*gen.Node{{Kind: gen.KElem, Tag: "div", NukeInner: true, NukeOuter: true, Kids: []*gen.Node{n}}, p("after")}
 		}},
